@@ -42,7 +42,7 @@ func init() {
 }
 
 func runC09(c *Ctx) {
-	runs := c.Pick(12, 300)
+	runs := c.Pick(40, 400)
 	if c.Arg("heavy", "") == "1" {
 		runs = 250
 	}
@@ -177,8 +177,9 @@ func runC09(c *Ctx) {
 		done := make(chan struct{})
 		go func() { wg.Wait(); invWG.Wait(); close(done) }()
 		if !waitCh(done) {
-			ds := rig.ProveDead(WaitShort)
 			close(stop)
+			ctl.Wait()
+			ds := rig.ProveDead(WaitShort)
 			if ds.Dead {
 				c.R.Violate(rig.Violation{Sig: "c09|senders-stuck|" + ds.Signature, Detail: "senders never finished although the server kept reading: " + ds.Signature, Case: Case("run", idx), Witness: ds.Dump})
 			} else {
